@@ -9,6 +9,7 @@ use std::cell::RefCell;
 
 thread_local! {
     static HOOK: RefCell<Option<Box<dyn Fn()>>> = const { RefCell::new(None) };
+    static INNER_HOOK: RefCell<Option<Box<dyn Fn()>>> = const { RefCell::new(None) };
 }
 
 /// Installs (or removes) the scheduler hook of the current thread.
@@ -25,9 +26,25 @@ pub fn yield_point() {
     });
 }
 
+/// Installs (or removes) the hook called *inside* `fetch_update`, between running the closure and
+/// the compare-exchange that publishes its result. Without it a hooked `fetch_update` is one
+/// indivisible step; with it a scheduler can interleave other threads there, as the hardware can.
+pub fn set_inner_yield_hook(hook: Option<Box<dyn Fn()>>) {
+    INNER_HOOK.with(|h| *h.borrow_mut() = hook);
+}
+
+/// Called inside a hooked `fetch_update`, before each compare-exchange attempt.
+pub fn inner_yield_point() {
+    INNER_HOOK.with(|h| {
+        if let Some(f) = h.borrow().as_ref() {
+            f()
+        }
+    });
+}
+
 /// Drop-in replacements for the std atomics used by the budget and limit algorithms.
 pub mod atomic {
-    use super::yield_point;
+    use super::{inner_yield_point, yield_point};
     pub use std::sync::atomic::Ordering;
 
     macro_rules! hooked_atomic {
@@ -83,13 +100,23 @@ pub mod atomic {
                     yield_point();
                     self.0.fetch_sub(v, o)
                 }
-                /// One atomic read-modify-write (one yield point): linearizable at its successful CAS.
-                pub fn fetch_update<F>(&self, s: Ordering, f: Ordering, g: F) -> Result<$int, $int>
+                /// One read-modify-write (one yield point): linearizable at its successful CAS. Written
+                /// out as std's load / closure / compare-exchange loop so that a scheduler which installs
+                /// the inner hook can interleave between the closure and the compare-exchange.
+                pub fn fetch_update<F>(&self, s: Ordering, f: Ordering, mut g: F) -> Result<$int, $int>
                 where
                     F: FnMut($int) -> Option<$int>,
                 {
                     yield_point();
-                    self.0.fetch_update(s, f, g)
+                    let mut prev = self.0.load(f);
+                    while let Some(next) = g(prev) {
+                        inner_yield_point();
+                        match self.0.compare_exchange(prev, next, s, f) {
+                            Ok(x) => return Ok(x),
+                            Err(now) => prev = now,
+                        }
+                    }
+                    Err(prev)
                 }
             }
         };
